@@ -34,7 +34,11 @@ class CTRLInterface(UDPLink):
 	def handle_rx(self):
 		# Read data from socket
 		data, remote = self.sock.recvfrom(4096)
-		data = data.decode()
+		try:
+			data = data.decode()
+		except UnicodeDecodeError:
+			log.error("Wrong data on TRXC interface (not a text)")
+			return
 
 		if not self.verify_req(data):
 			log.error("Wrong data on TRXC interface")
